@@ -142,10 +142,11 @@ def run_all(prop_id, parts, workdir):
 
 
 def structure_coverage(events_path):
-    """Vacuity evidence measured from the recorded dumps (not an oracle): which structural transitions were exercised."""
+    """Vacuity evidence measured from the recorded page dumps / shapes (not an oracle): which structural transitions of the
+    B+ tree the replayed calls went through."""
     cov = {"root_splits": 0, "root_collapses": 0, "leaf_splits": 0, "leaf_merges": 0, "leaf_borrows": 0, "internal_splits": 0,
-           "internal_merges_or_borrows": 0, "max_height": 0, "heights_seen": set(), "degrees_seen": set(), "max_nodes": 0,
-           "outcomes": {}, "max_rids_per_key": 0}
+           "internal_merges": 0, "internal_borrows": 0, "max_height": 0, "heights_seen": set(), "degrees_seen": set(),
+           "max_nodes": 0, "outcomes": {}, "max_rids_per_key": 0, "calls_with_shape": 0}
     prev = None
     with open(events_path) as fh:
         for ln in fh:
@@ -156,37 +157,49 @@ def structure_coverage(events_path):
                 continue
             cov["outcomes"][e.get("out")] = cov["outcomes"].get(e.get("out"), 0) + 1
             d = e.get("dump")
-            if not d:
+            if d:
+                leaves = {n["id"]: set(n["ks"]) for n in d["nodes"] if n["t"] == "L"}
+                inner = {n["id"]: set(n["ch"]) for n in d["nodes"] if n["t"] == "I"}
+                cur = {"h": d["h"], "lv": leaves, "ni": len(inner), "inner": inner}
+                cov["max_nodes"] = max(cov["max_nodes"], len(d["nodes"]))
+                cov["degrees_seen"].add(e.get("deg"))
+                for n in d["nodes"]:
+                    for r in n["rs"]:
+                        cov["max_rids_per_key"] = max(cov["max_rids_per_key"], len(r))
+            elif e.get("sh"):
+                cur = {"h": e["sh"]["h"], "lv": {x[0]: set(x[1]) for x in e["sh"]["lv"]}, "ni": len(e["sh"]["in"]),
+                       "inner": {x[0]: set(x[1]) for x in e["sh"]["in"]}}
+            else:
+                prev = None
                 continue
-            leaves = [n for n in d["nodes"] if n["t"] == "L"]
-            inner = [n for n in d["nodes"] if n["t"] == "I"]
-            cur = {"h": d["h"], "nl": len(leaves), "ni": len(inner), "sizes": {n["id"]: len(n["ks"]) for n in leaves}}
-            cov["max_height"] = max(cov["max_height"], d["h"])
-            cov["heights_seen"].add(d["h"])
-            cov["degrees_seen"].add(e.get("deg"))
-            cov["max_nodes"] = max(cov["max_nodes"], len(d["nodes"]))
-            for n in leaves:
-                for r in n["rs"]:
-                    cov["max_rids_per_key"] = max(cov["max_rids_per_key"], len(r))
+            cov["calls_with_shape"] += 1
+            cov["max_height"] = max(cov["max_height"], cur["h"])
+            cov["heights_seen"].add(cur["h"])
             if prev is not None and a in ("ins", "del", "dels"):
                 if cur["h"] > prev["h"]:
                     cov["root_splits"] += 1
                 if cur["h"] < prev["h"]:
                     cov["root_collapses"] += 1
-                if cur["nl"] > prev["nl"]:
+                if len(cur["lv"]) > len(prev["lv"]):
                     cov["leaf_splits"] += 1
-                if cur["nl"] < prev["nl"]:
+                if len(cur["lv"]) < len(prev["lv"]):
                     cov["leaf_merges"] += 1
-                if cur["ni"] > prev["ni"] and cur["h"] == prev["h"]:
+                dh = cur["h"] - prev["h"]
+                if cur["ni"] - max(dh, 0) > prev["ni"]:
                     cov["internal_splits"] += 1
-                if cur["ni"] < prev["ni"] and cur["h"] == prev["h"]:
-                    cov["internal_merges_or_borrows"] += 1
-                if a in ("del", "dels") and cur["nl"] == prev["nl"]:
-                    # an entry left a leaf other than the one the key was deleted from: borrowed by the underfull neighbour
-                    shrunk = [i for i, n in cur["sizes"].items() if i in prev["sizes"] and n < prev["sizes"][i]]
-                    grown = [i for i, n in cur["sizes"].items() if i in prev["sizes"] and n > prev["sizes"][i]]
-                    if shrunk and (grown or len(shrunk) > 1 or sum(prev["sizes"].values()) - sum(cur["sizes"].values()) == 0):
+                if cur["ni"] - min(dh, 0) < prev["ni"]:
+                    cov["internal_merges"] += 1
+                if a in ("del", "dels") and len(cur["lv"]) == len(prev["lv"]):
+                    # a key now lives in another leaf than before: borrowed by an underfull neighbour
+                    where = {k: i for i, ks in prev["lv"].items() for k in ks}
+                    if any(k in where and where[k] != i and where[k] in cur["lv"] for i, ks in cur["lv"].items() for k in ks):
                         cov["leaf_borrows"] += 1
+                if a in ("del", "dels") and cur["inner"] and prev.get("inner"):
+                    # a child page now hangs under another internal node that existed before: borrowed at the internal level
+                    where = {c: i for i, cs in prev["inner"].items() for c in cs}
+                    if any(c in where and where[c] != i and where[c] in cur["inner"] and i in prev["inner"]
+                           for i, cs in cur["inner"].items() for c in cs):
+                        cov["internal_borrows"] += 1
             prev = cur
     cov["heights_seen"] = sorted(cov["heights_seen"])
     cov["degrees_seen"] = sorted(x for x in cov["degrees_seen"] if x is not None)
@@ -214,7 +227,7 @@ def patch_replays(prop_id, probes):
 TIERS = {
     # family of the exhaustive part, depth cap, (number, length, phase) of random walks, every n-th scenario also on NativeStorage
     "quick":    {"family": "quick", "cap": 9, "sims": 2, "simlen": 240, "phase": 60, "native_every": 150, "wide": False},
-    "thorough": {"family": "thorough", "cap": 9, "sims": 6, "simlen": 1200, "phase": 150, "native_every": 400, "wide": True},
+    "thorough": {"family": "thorough", "cap": 9, "sims": 4, "simlen": 1000, "phase": 125, "native_every": 400, "wide": True},
 }
 
 
@@ -222,7 +235,7 @@ TIERS = {
 def check_c17(prop_id, tier, seed):
     t0 = time.time()
     T = TIERS[tier]
-    fams = [T["family"], "sim", "reopen"] + (["wide"] if T["wide"] else [])
+    fams = [T["family"], "sim", "reopen", "heavy"] + (["wide"] if T["wide"] else [])
     tasks = {}
     with concurrent.futures.ThreadPoolExecutor(max_workers=6) as ex:
         for f in fams:
@@ -231,6 +244,7 @@ def check_c17(prop_id, tier, seed):
         if T["wide"]:
             tasks[("exh", "wide")] = ex.submit(gen, consts(Mode="exh", Family="wide", DepthCap=T["cap"]))
         tasks[("reopen", "reopen")] = ex.submit(gen, consts(Mode="reopen", Family="reopen"))
+        tasks[("exh", "heavy")] = ex.submit(gen, consts(Mode="exh", Family="heavy"))
         # -simulate: num walks per initial state are not controllable, TLC picks the combination at random per walk
         tasks[("sim", "sim")] = ex.submit(gen, consts(Mode="sim", Family="sim", SimLen=T["simlen"], Phase=T["phase"]),
                                           "num=%d" % (4 * T["sims"]), ["-depth", str(T["simlen"] + 5), "-seed", str(1000 + int(seed))])
@@ -257,8 +271,10 @@ def check_c17(prop_id, tier, seed):
         parts.append({"name": "wide", "scenarios": attach(res[("exh", "wide")][0], probes, "%s-wide" % prop_id), "cfg": default})
     sims = attach(res[("sim", "sim")][0], probes, "%s-sim" % prop_id)
     parts.append({"name": "sim", "scenarios": sims, "cfg": default})
-    parts.append({"name": "reopen", "scenarios": attach(res[("reopen", "reopen")][0], probes, "%s-reopen" % prop_id), "cfg": native,
-                  "max_procs": 3})
+    reopen = attach(res[("reopen", "reopen")][0], probes, "%s-reopen" % prop_id)
+    parts.append({"name": "reopen", "scenarios": reopen, "cfg": default})
+    parts.append({"name": "reopennat", "scenarios": [s for s in reopen if s["steps"][-1]["a"] == "reopen"], "cfg": native, "max_procs": 3})
+    parts.append({"name": "heavy", "scenarios": attach(res[("exh", "heavy")][0], probes, "%s-heavy" % prop_id), "cfg": default})
     wd = os.path.join(vc.RUN, "work_%s" % prop_id)
     verdict, events, timing = run_all(prop_id, parts, wd)
     cov = structure_coverage(events)
